@@ -19,8 +19,8 @@ Print Assumptions C03_tables.
 (* the stand-alone proxy serves with http.Serve and builds no http.Server of its own: there is no read, write or idle
    deadline on the connections that carry a response (the agent's upload is the body of a POST), however long the
    backend takes to produce it.  (The model has no time-outs on the response path; this is where that is checked.) *)
-Theorem C03_no_server_deadlines : serverMainHTTPCalls = ["http.Serve"] /\ serverHTTPServerFields = [].
-Proof. split; reflexivity. Qed.
+Theorem C03_no_server_deadlines : serverMainHTTPCalls = ["http.Serve"] /\ serverHTTPServerFields = [] /\ serverLimitCalls = [].
+Proof. repeat split; reflexivity. Qed.
 Print Assumptions C03_no_server_deadlines.
 
 (* For every backend response - any final status outside 1xx, any header fields,
